@@ -28,6 +28,7 @@ type c07Plan struct {
 }
 
 type c07Stats struct {
+	digest                                    uint64
 	idChecks, newOK, newFail, devReads, procs int
 	fired                                     map[string]int
 	realOutputs                               []string
@@ -110,6 +111,7 @@ func (g *c07Engine) judge(cp *c07Plan, st *c07Stats) (*histVerdict, error) {
 		return v, nil
 	}
 	countFired(res, st)
+	st.digest = strDigest(mustJSON(res.Outcomes) + res.Stream)
 	st.idChecks += res.IdChecks
 	if len(res.IdBad) > 0 {
 		return &histVerdict{Class: "identity", Key: "identity/preinit/at=" + strconv.Itoa(res.IdBad[0]) + "/" + hk,
@@ -217,13 +219,33 @@ func (g *c07Engine) violation(cp *c07Plan, v *histVerdict) *Violation {
 	return &Violation{Property: "C07", Class: v.Class, Key: v.Key, Detail: v.Detail, Engine: "coldsim", Plan: cp}
 }
 
+// realTries: configuration A runs with NOTHING simulated, so what varies between two
+// executions of the same plan (pid, wall clock, address space, real entropy) is
+// exactly the space "every process start" quantifies over and is behind no seam.
+// A replay of such a plan therefore means: start it up to realTries times.
+const realTries = 48
+
+func (g *c07Engine) judgeN(cp *c07Plan, st *c07Stats) (*histVerdict, error) {
+	n := 1
+	if cp.Mode == "real" {
+		n = realTries
+	}
+	for i := 0; i < n; i++ {
+		v, err := g.judge(cp, st)
+		if err != nil || v != nil {
+			return v, err
+		}
+	}
+	return nil, nil
+}
+
 func (g *c07Engine) Reproduce(pl interface{}) (*Violation, error) {
 	cp, err := toC07Plan(pl)
 	if err != nil {
 		return nil, err
 	}
 	st := &c07Stats{fired: map[string]int{}}
-	v, err := g.judge(cp, st)
+	v, err := g.judgeN(cp, st)
 	if err != nil || v == nil {
 		return nil, err
 	}
@@ -236,6 +258,15 @@ func (g *c07Engine) Minimise(v *Violation) *Violation {
 		return v
 	}
 	st := &c07Stats{fired: map[string]int{}}
+	if cp.Mode == "real" {
+		// the only candidate worth the many process starts: no calls at all (identity before the first call)
+		t := *cp
+		t.Hist.Ops = nil
+		if got, err := g.judgeN(&t, st); err == nil && got != nil && got.Class == v.Class {
+			return g.violation(&t, got)
+		}
+		return v
+	}
 	sub := func(keep []int) *c07Plan {
 		t := *cp
 		t.Hist.Ops = nil
@@ -384,6 +415,7 @@ func CheckC07(e *Env) (int, error) {
 	firstCalls := map[string]bool{}
 	var samples []interface{}
 	totalOps := 0
+	var od OrderedDigest
 	e.Logf("C07: %d cold-start histories (%d with the real source, %d with the OS source simulated)", len(plans), nReal, nSim)
 	e.Parallel(len(plans), func(i int) {
 		cp := plans[i]
@@ -397,6 +429,7 @@ func CheckC07(e *Env) (int, error) {
 			}
 			return
 		}
+		od.Add(i, st.digest)
 		tot.idChecks += st.idChecks
 		tot.newOK += st.newOK
 		tot.newFail += st.newFail
@@ -451,6 +484,7 @@ func CheckC07(e *Env) (int, error) {
 		"default_source_outputs_compared": len(tot.realOutputs),
 		"probes":              map[string]int{"n_language_pairs_seen_as_first_call": len(firstCalls)},
 		"raw_violations":      len(viols),
+		"outcome_digest_simulated_source_runs": od.String(),
 	}
 	if err := e.WriteEvidence("C07", "exploration", cov, []string{
 		"package initialisation order puts a0verif/harness/presim before github.com/islishude/bip39 (self-checked by every coldsim worker: SEAM-FAILED otherwise)",
